@@ -282,6 +282,38 @@ theorem explicit_amp_exact (g : Geometry) (wmi : Mat) (sc : Rat) (T : Mat) (l : 
   rw [← chAmps_getD T c (hl c hc)]
   exact getD_chAmps_exact p T hp c
 
+/-- sparse storage: when every kept column's exact peak-to-peak is a `p`-bit value, so is every reported amplitude
+(the rounded subtraction of the real code returns exactly it) -/
+theorem sparse_amp_exact (wmi : Mat) (sc : Rat) (Tw : Mat) (cols : List Int) (m : Int) (unwh : Bool) (p : Nat)
+    (hp : ∀ j, j < (keptCols Tw cols m).length →
+      roundNE p (ptp (col (if unwh then unwhiten wmi sc
+          (Tw.map fun row => (keptCols Tw cols m).map fun j => row.getD j 0)
+          (some ((keptCols Tw cols m).map fun j => (cols.getD j 0).toNat))
+        else Tw.map fun row => (keptCols Tw cols m).map fun j => row.getD j 0) j))
+      = ptp (col (if unwh then unwhiten wmi sc
+          (Tw.map fun row => (keptCols Tw cols m).map fun j => row.getD j 0)
+          (some ((keptCols Tw cols m).map fun j => (cols.getD j 0).toNat))
+        else Tw.map fun row => (keptCols Tw cols m).map fun j => row.getD j 0) j)) :
+    ∀ a ∈ (getTemplateSparse wmi sc Tw cols m unwh).amplitude, roundNE p a = a := by
+  intro a ha
+  generalize hT : (if unwh then unwhiten wmi sc
+          (Tw.map fun row => (keptCols Tw cols m).map fun j => row.getD j 0)
+          (some ((keptCols Tw cols m).map fun j => (cols.getD j 0).toNat))
+        else Tw.map fun row => (keptCols Tw cols m).map fun j => row.getD j 0) = T at hp
+  have hamp : (getTemplateSparse wmi sc Tw cols m unwh).amplitude =
+      (argsortDesc ((List.range (keptCols Tw cols m).length).map fun j => ptp (col T j))).map fun j =>
+        ((List.range (keptCols Tw cols m).length).map fun j => ptp (col T j)).getD j 0 := by
+    rw [← hT]; rfl
+  rw [hamp] at ha
+  obtain ⟨j, _, rfl⟩ := List.mem_map.1 ha
+  by_cases hj : j < (keptCols Tw cols m).length
+  · have e : ((List.range (keptCols Tw cols m).length).map fun j => ptp (col T j)).getD j 0 = ptp (col T j) := by
+      simp [List.getD_eq_getElem?_getD, hj]
+    rw [e]; exact hp j hj
+  · have e : ((List.range (keptCols Tw cols m).length).map fun j => ptp (col T j)).getD j 0 = 0 := by
+      simp [List.getD_eq_getElem?_getD, Nat.le_of_not_lt hj]
+    rw [e, roundNE_zero]
+
 /-! ### no kept column -/
 
 theorem colAbsMax_nonneg (Tw : Mat) (j : Nat) : 0 ≤ colAbsMax Tw j := by
